@@ -32,8 +32,8 @@ PROBES = ['two_database_objects_with_common_names', 'alias_only_in_later_part', 
           'request_after_gc_rebuilt', 'identity_while_held', 'file_removed_after_load',
           'unpickled_database_answered', 'invalid_description_rejected']
 BUDGET = {
-    'quick': {'families': 1800, 'wall_cap': 240, 'shrink_s': 10},
-    'thorough': {'families': 80000, 'wall_cap': 3000, 'shrink_s': 30},
+    'quick': {'families': 10000, 'wall_cap': 420, 'shrink_s': 10},
+    'thorough': {'families': 100000, 'wall_cap': 5400, 'shrink_s': 30},
 }
 COMPONENTS = {
     'real': ['lazy_dataset.database: Database.get_examples / _get_dataset / DictDatabase / '
